@@ -39,10 +39,10 @@ type FaultPlan struct {
 	// CommitFail rolls the n-th transaction commit back and reports ErrInjected.
 	CommitFail int
 	commits    int
-	nexts     int
-	closes    int
-	execs     int
-	queries   int
+	nexts      int
+	closes     int
+	execs      int
+	queries    int
 }
 
 func (p *FaultPlan) Arm(on bool) {
@@ -159,7 +159,9 @@ func (c *fconn) PrepareContext(ctx context.Context, q string) (driver.Stmt, erro
 	return &fstmt{Stmt: st, plan: c.plan}, nil
 }
 
-func (c *fconn) Prepare(q string) (driver.Stmt, error) { return c.PrepareContext(context.Background(), q) }
+func (c *fconn) Prepare(q string) (driver.Stmt, error) {
+	return c.PrepareContext(context.Background(), q)
+}
 
 func (c *fconn) BeginTx(ctx context.Context, opts driver.TxOptions) (driver.Tx, error) {
 	var tx driver.Tx
